@@ -62,6 +62,10 @@ def run(ctx, gen_status):
         for kind in ['single', 'pair', 'scalar_label', 'triple']:
             loader.append({'N': L * r.choice([1, 2]) if L < 40 else L, 'bs': 1 if L >= 40 else r.choice([1, 2]), 'kind': kind, 'seed': r.randint(0, 999)})
     loader = [c for c in loader if c['N'] <= 240]
+    # the distributed Poisson loader must take len(loader) steps per epoch too (loader lengths where int(1/(1/L)) != L included)
+    for L in (93, 99, 105, 7, 12):
+        for W in (2, 3):
+            loader.append({'N': L, 'bs': 1, 'kind': 'single', 'seed': r.randint(0, 999), 'W': W, 'rank': r.randrange(W)})
     res = vlib.run_impl('sampler_cases.py', {'uniform': uni, 'dist': dist, 'loader': loader}, timeout=3600)
     # ---- direct oracle on the implementation
     for c, rr in zip(uni, res['uniform']):
